@@ -86,11 +86,32 @@ func runC08(res *hx.Result, rng *hx.Rng, tier string, outdir string) {
 	reflOpts := wg.GenOpts{MaxDepth: 3, Scalars: "cCwWiIlLfdbs", KeyScalar: "sIil", MaxWidth: 3, Template: true}
 	sigOpts := wg.GenOpts{MaxDepth: 3, Scalars: "cCwWiIlLfdbsmo", KeyScalar: "sIil", MaxWidth: 3, Template: true}
 	cuts := 0
-	for i := 0; i < n; i++ {
-		kind := i % 8
+	// directed: every scalar kind in every container position (and the zero-width containers), with
+	// all containers non-empty, for the signature reader and for the reflection decoder
+	type dirCase struct {
+		kind int
+		t    *wg.Ty
+	}
+	var pre []dirCase
+	for _, t := range wg.DirectedTys(sigOpts.Scalars, sigOpts.KeyScalar, true) {
+		pre = append(pre, dirCase{k8SigRead, t})
+		if !t.HasScalar("mo") && !(t.HasScalar("cC") && sw["refl_drop8"]) {
+			pre = append(pre, dirCase{k8Refl, t})
+		}
+	}
+	for i := -len(pre); i < n; i++ {
+		kind := (i + 8*len(pre)) % 8
 		var t *wg.Ty
 		var enc []byte
+		if i < 0 {
+			kind = -1
+			t = pre[i+len(pre)].t
+			enc = wg.GenValFull(rng, t, 1+rng.Intn(2)).Enc()
+			res.Dist("directed")
+		}
 		switch kind {
+		case -1:
+			kind = pre[i+len(pre)].kind
 		case k8Msg:
 			h := genHeader(rng)
 			p := rng.Bytes(rng.Intn(60))
